@@ -8,7 +8,7 @@ import json
 import os
 
 from lib.common import InfraError, VERIF, findings_for, log, sh, sha, tlc
-from props.isa_common import extract_isa_constants, hexs, write_mc
+from props.isa_common import extract_isa_constants, hexs, run_probe_cases, write_mc
 
 CONSISTENCY = ("EnumEqualsTable", "TableSelfIndexed", "KindsKnown", "FitsMaxSize", "NamesUnique")
 LAWS = ("DecodeOfEncode", "PrefixesRefused", "EncodeOfDecode", "NonOpcodeRefused")
@@ -110,15 +110,12 @@ def run_codec(ctx, probe, tab, opcodes, cov):
     with open(inp, "w") as f:
         for i, c in enumerate(cases):
             f.write(json.dumps(dict(id=i, t=c["t"], op=c["op"], args=c["args"], bytes=c["bytes"])) + "\n")
-    p = sh([probe, "cases", inp], env=ctx.env(), timeout=900, check=False)
-    if p.returncode != 0:
-        raise InfraError("isa_probe cases failed rc=%d: %s" % (p.returncode, p.stderr[-2000:]))
-    results = {}
-    for line in p.stdout.splitlines():
-        x = json.loads(line)
-        results[x["id"]] = x
-    if len(results) != len(cases):
-        raise InfraError("isa_probe answered %d of %d cases" % (len(results), len(cases)))
+    results, crash = run_probe_cases(ctx, [probe, "cases", inp], len(cases))
+    if crash:
+        c = cases[crash["id"]] if crash["id"] < len(cases) else None
+        path = ctx.save_replay("codec-crash-%d.json" % crash["id"], json.dumps(dict(kind="codec", case=c, crash=crash), indent=1))
+        ctx.violation("codec: the real encoder/decoder died (rc %s) on case %s instead of answering" % (crash["rc"], json.dumps(c)[:200]), path)
+        cases = cases[:crash["id"]]
     nbad = ndrift = 0
     by_t = {}
     distinct = set()
@@ -265,15 +262,13 @@ def run_text_generated(ctx, probe, mc, switches, cov):
         for i, c in enumerate(cases):
             m = c["m"]
             f.write(json.dumps(dict(id=i, strings=m["strings"], functions=m["functions"], code=m["code"], flags=1, entry=0)) + "\n")
-    p = sh([probe, "rt", inp], env=ctx.env(), timeout=1200, check=False)
-    if p.returncode != 0:
-        raise InfraError("isa_probe rt failed rc=%d: %s" % (p.returncode, p.stderr[-2000:]))
-    results = {}
-    for line in p.stdout.splitlines():
-        x = json.loads(line)
-        results[x["id"]] = x
-    if len(results) != len(cases):
-        raise InfraError("isa_probe rt answered %d of %d modules" % (len(results), len(cases)))
+    results, crash = run_probe_cases(ctx, [probe, "rt", inp], len(cases))
+    if crash:
+        c = cases[crash["id"]] if crash["id"] < len(cases) else None
+        path = ctx.save_replay("text-crash-%d.json" % crash["id"], json.dumps(dict(kind="text", module=core_of_spec(c["m"]) if c else None,
+                                                                                   crash=crash), indent=1))
+        ctx.violation("text form: disasm_module/asm_assemble died (rc %s) on module %s" % (crash["rc"], json.dumps(c["m"])[:200] if c else "?"), path)
+        cases = cases[:crash["id"]]
     stats = new_stats()
     fams = {}
     distinct = set()
